@@ -218,8 +218,9 @@ class Line:
 
 
 class Case:
-    def __init__(self, lines, rule=None, line=None, doc_typed=True, doc_realisable=True, note="", cls=None):
+    def __init__(self, lines, rule=None, line=None, doc_typed=True, doc_realisable=True, note="", cls=None, alt_lines=()):
         self.lines, self.rule, self.line = lines, rule, line
+        self.alt_lines = list(alt_lines)   # other lines of the mutated construct (e.g. the head of the bits type)
         self.doc_typed, self.doc_realisable, self.note = doc_typed, doc_realisable, note
         self.cls = cls    # 'C13' or 'C14' catalogue
 
@@ -259,7 +260,9 @@ class Base:
     def build(self):
         r = self.r
         self.order = r.choice(["LittleEndian", "BigEndian"])
-        self.add("attr", 0, name="byte_order", value='"%s"' % self.order, default=True, scope="module")
+        self.module_default = r.random() < 0.5
+        if self.module_default:
+            self.add("attr", 0, name="byte_order", value='"%s"' % self.order, default=True, scope="module")
         # enums ------------------------------------------------------------------
         signed_b = r.random() < 0.5
         mb = r.choice([8, 12, 16])
@@ -269,10 +272,10 @@ class Base:
         self.enums["Aa"] = ["AX", "AY", "AZ"]
         for i, n in enumerate(self.enums["Aa"]):
             self.add("enum_value", 1, name=n, value=L("int", str(r.choice([i, i * 3, i + 10]))), owner="Aa")
+        self.add("enum_value", 1, name="AQ", value=L("int", "40"), owner="Aa", spare=True)
         self.add("head", 0, what="enum", name="Bb", owner="Bb")
         self.add("attr", 1, name="maximum_bits", value=L("int", str(mb)), scope="enum", owner="Bb")
-        if signed_b or r.random() < 0.5:
-            self.add("attr", 1, name="is_signed", value=L("bool", "true" if signed_b else "false"), scope="enum", owner="Bb")
+        self.add("attr", 1, name="is_signed", value=L("bool", "true" if signed_b else "false"), scope="enum", owner="Bb")
         self.enums["Bb"] = ["BX", "BY"]
         hi = (2 ** (mb - 1) - 1) if signed_b else (2 ** mb - 1)
         lo = -(2 ** (mb - 1)) if signed_b else 0
@@ -280,6 +283,7 @@ class Base:
         self.add("enum_value", 1, name="BY", value=L("int", str(r.choice([hi, hi - 1, 2]))), owner="Bb", edge="hi")
         # a fixed-size struct, a bits type, a parameterised dynamic struct --------
         self.add("head", 0, what="struct", name="Fixed", owner="Fixed")
+        self.struct_default("Fixed")
         self.add("field", 1, start=L("int", "0"), size=L("int", "2"), tname="UInt", name="fa", owner="Fixed", scalar=("UInt", 16))
         self.add("field", 1, start=L("int", "2"), size=L("int", "2"), tname="Int", name="fb", owner="Fixed", scalar=("Int", 16))
         self.add("head", 0, what="bits", name="Flags", owner="Flags")
@@ -288,7 +292,25 @@ class Base:
         self.add("field", 1, start=L("int", "1"), size=L("int", str(w)), tname="UInt", name="g1", owner="Flags", inbits=True, scalar=("UInt", w))
         self.add("field", 1, start=L("int", "8"), size=L("int", "4"), tname="Aa", name="g2", owner="Flags", inbits=True, enumfield="Aa")
         self.add("field", 1, start=L("int", "12"), size=L("int", "4"), tname="Bcd", name="g3", owner="Flags", inbits=True, scalar=("Bcd", 4))
+        self.add("head", 0, what="bits", name="Wide", owner="Wide")
+        self.add("field", 1, start=L("int", "0"), size=L("int", "32"), tname="Float", name="wf", owner="Wide", inbits=True, scalar=("Float", 32), spare=True)
+        self.add("field", 1, start=L("int", "32"), size=L("int", "31"), tname="UInt", name="wu", owner="Wide", inbits=True, scalar=("UInt", 31), spare=True)
+        self.add("field", 1, start=L("int", "63"), size=L("int", "1"), tname="Flag", name="wl", owner="Wide", inbits=True, scalar=("Flag", 1), spare=True, last_bit=True)
+        self.add("head", 0, what="struct", name="Unused", owner="Unused", spare=True)
+        self.struct_default("Unused")
+        self.add("field", 1, start=L("int", "0"), size=L("int", "1"), tname="UInt", name="uu", owner="Unused", scalar=("UInt", 8), spare=True)
+        self.add("field", 1, start=L("int", "1"), size=L("int", "2"), tname="Int", name="ui", owner="Unused", scalar=("Int", 16), spare=True)
+        self.add("field", 1, start=L("int", "3"), size=L("int", "1"), tname="Bcd", name="ub", owner="Unused", scalar=("Bcd", 8), spare=True)
+        self.add("field", 1, start=L("int", "4"), size=L("int", "4"), tname="Float", name="uf", owner="Unused", scalar=("Float", 32), spare=True)
+        self.add("field", 1, start=L("int", "8"), size=L("int", "1"), tname="Bb", name="ue", owner="Unused", enumfield="Bb", spare=True)
+        self.add("field", 1, start=L("int", "9"), size=L("int", "4"), tname="Fixed", name="us", owner="Unused", spare=True, structfield=True)
+        self.add("field", 1, start=L("int", "13"), size=L("int", "8"), tname="UInt", tbits=16, dims=[L("int", "2"), L("int", "2")], name="ua", owner="Unused", spare=True, array=True)
+        self.add("field", 1, start=L("int", "21"), size=L("int", "8"), tname="Wide", name="uw", owner="Unused", spare=True)
+        self.add("anon_bits", 1, start=L("int", "29"), size=L("int", "2"), owner="Unused", spare=True)
+        self.add("field", 2, start=L("int", "0"), size=L("int", "1"), tname="Flag", name="ab0", owner="Unused", inbits=True, scalar=("Flag", 1), spare=True)
+        self.add("field", 2, start=L("int", "1"), size=L("int", "15"), tname="UInt", name="ab1", owner="Unused", inbits=True, scalar=("UInt", 15), spare=True)
         self.add("head", 0, what="struct", name="Inner", params=[("k", "Aa"), ("n", "UInt:8")], owner="Inner")
+        self.struct_default("Inner")
         ienv = Env()
         ienv.params = [("k", "enum:Aa"), ("n", "int")]
         ienv.add("int", "n")
@@ -304,6 +326,7 @@ class Base:
         self.cur_env = None
         # main struct --------------------------------------------------------------
         self.add("head", 0, what="struct", name="Main", params=[("p", "UInt:8"), ("pe", "Bb")], owner="Main")
+        self.struct_default("Main")
         main_head = len(self.lines)
         env = Env()
         env.params = [("p", "int"), ("pe", "enum:Bb")]
@@ -383,6 +406,10 @@ class Base:
         self.add("field", 1, start=X("int", "+", [L("int", str(off)), L("int", "x")]), size=L("int", "w"), tname="UInt", tbits=8, dims=[None], name="tail", owner="Main", array=True)
         self.envs["Main"] = env
         self.cur_env = None
+
+    def struct_default(self, owner):
+        if not self.module_default:
+            self.add("attr", 1, name="byte_order", value='"%s"' % self.order, default=True, scope="struct", owner=owner, env=None)
 
     def case(self):
         return Case(copy.deepcopy(self.lines))
@@ -563,4 +590,186 @@ C13_KNOWN = {
     "ordering-enum-operands": "typecheck-enum-ordering-accepted",          # F13
     "parameter-other-enum": "typecheck-enum-parameter-any-enum",           # F14
     "present-of-parameter": "bounds-crash-present-parameter",              # F12
+}
+
+
+# ----------------------------------------------------------------------------
+# C14 catalogue: boundary values and single layout / attribute rule violations
+# ----------------------------------------------------------------------------
+RESERVED_FIELD = ["class", "int", "while", "goto", "switch", "return", "lambda", "yield", "register"]
+RESERVED_ENUM_VALUE = ["NULL", "EOF", "INT_MAX", "NAN", "EDOM", "SIGINT"]
+RESERVED_TYPE = ["None", "True", "False", "Self", "NSObject", "CGFloat"]
+
+
+def c14_cases(base, rng):
+    """Yield Cases (violations: doc_realisable False; boundary variants: doc_realisable True)."""
+    lines = base.lines
+    out = []
+
+    def find(pred):
+        return [i for i, l in enumerate(lines) if pred(l)]
+
+    def named(n):
+        r = find(lambda l: l.kind == "field" and l.f.get("name") == n)
+        return r[0] if r else None
+
+    def edit(rule, idx, fn, ok=False, line_off=0, head=False):
+        if idx is None:
+            return
+        c = base.case()
+        fn(c.lines[idx], c.lines)
+        alt = []
+        if head:   # the rule is about the enclosing type: its error sits on the type's first line
+            alt = [max(i for i in range(idx + 1) if lines[i].kind == "head") + 1]
+        out.append(Case(c.lines, rule, idx + 1 + line_off, doc_typed=True, doc_realisable=ok, cls="C14", alt_lines=alt))
+
+    def insert_after(rule, idx, new_lines, ok=False, which=0):
+        """insert lines after index idx; the mutated line is the which-th inserted one"""
+        if idx is None:
+            return
+        c = base.case()
+        for k, nl in enumerate(new_lines):
+            c.lines.insert(idx + 1 + k, nl)
+        out.append(Case(c.lines, rule, idx + 2 + which, doc_typed=True, doc_realisable=ok, cls="C14"))
+
+    def setf(**kw):
+        def fn(l, _):
+            for k, v in kw.items():
+                l.f[k] = v
+        return fn
+
+    I = lambda n: L("int", str(n))
+    # ---- scalar widths in bits (unit 1) ----
+    wu = named("wu")           # 31-bit UInt at bit 32 of Wide (64-bit bits)
+    ab1 = named("ab1")         # 15-bit UInt in anonymous bits
+    g1 = named("g1")
+    for nm, idx in (("uint", ab1),):
+        edit("width-0:%s-in-bits" % nm, idx, setf(size=I(0)))
+    edit("boundary-ok:uint-1-bit", ab1, setf(size=I(1)), ok=True)
+    # Wide: 0 [+32] Float, 32 [+31] UInt, 63 [+1] Flag  -> make one 64-bit UInt / Int / Bcd
+    wf = named("wf")
+    for t in ("UInt", "Int", "Bcd"):
+        edit("boundary-ok:%s-64-bits" % t.lower(), wf, setf(tname=t, size=I(64)), ok=True)
+    edit("boundary-ok:float-64-bits", wf, setf(size=I(64)), ok=True)
+    edit("float-33-bits", wf, setf(size=I(33)))
+    edit("float-16-bits", wf, setf(size=I(16)))
+    edit("flag-2-bits", named("ab0"), setf(size=I(2)))
+    edit("bits-65:uint-65", wf, setf(tname="UInt", size=I(65)), head=True)
+    wl = named("wl")
+    edit("bits-65:members-sum-to-65", wl, setf(start=I(64)), head=True)
+    # ---- scalar widths in struct (unit 8) ----
+    for nm, t in (("uu", "uint"), ("ui", "int"), ("ub", "bcd")):
+        edit("width-72:%s-in-struct" % t, named(nm), setf(size=I(9)))
+        edit("width-0:%s-in-struct" % t, named(nm), setf(size=I(0)))
+        edit("boundary-ok:%s-64-in-struct" % t, named(nm), setf(size=I(8)), ok=True)
+    edit("float-24-bits", named("uf"), setf(size=I(3)))
+    edit("boundary-ok:float-64-in-struct", named("uf"), setf(size=I(8)), ok=True)
+    # ---- enums ----
+    hi = find(lambda l: l.kind == "enum_value" and l.f.get("edge") == "hi")[0]
+    lo = find(lambda l: l.kind == "enum_value" and l.f.get("edge") == "lo")[0]
+    mb = base.enum_bits["Bb"]
+    sg = base.enum_signed["Bb"]
+    top = (2 ** (mb - 1) - 1) if sg else (2 ** mb - 1)
+    bot = -(2 ** (mb - 1)) if sg else 0
+    edit("enum-value-above-range", hi, setf(value=I(top + 1)))
+    edit("boundary-ok:enum-value-at-maximum", hi, setf(value=I(top)), ok=True)
+    edit("enum-value-below-range", lo, setf(value=L("int", "-%d" % (-(bot - 1)))))
+    edit("boundary-ok:enum-value-at-minimum", lo, setf(value=L("int", str(bot) if bot >= 0 else "-%d" % -bot)), ok=True)
+    mbl = find(lambda l: l.kind == "attr" and l.f["name"] == "maximum_bits")[0]
+    edit("enum-maximum-bits-0", mbl, setf(value=I(0)))
+    edit("enum-maximum-bits-65", mbl, setf(value=I(65)))
+    edit("boundary-ok:enum-maximum-bits-64", mbl, setf(value=I(64)), ok=True)
+    edit("enum-field-wider-than-maximum-bits", named("ue"), setf(size=I(3)))
+    edit("enum-field-width-0", named("g2"), setf(size=I(0)))
+    edit("boundary-ok:enum-field-narrower", named("g2"), setf(size=I(2)), ok=True)
+    # ---- bits ----
+    edit("bits-byte-oriented-member", named("g3"), setf(tname="Fixed", size=I(32), start=I(16)))
+    edit("bits-not-fixed-size", named("g3"), setf(tname="UInt", tbits=1, dims=[None], size=L("int", "g1")), head=True)
+    # ---- arrays ----
+    ua = named("ua")
+    edit("array-inner-dimension-omitted", ua, setf(dims=[None, I(2)]))
+    edit("boundary-ok:array-outermost-omitted", ua, setf(dims=[I(2), None]), ok=True)
+    edit("array-element-not-whole-bytes", ua, setf(tbits=4))
+    edit("array-element-no-size", ua, setf(tbits=None, dims=[I(4)]))
+    arr2 = named("arr2")
+    edit("array-inner-dimension-dynamic", arr2, setf(dims=[L("int", "x"), I(2)]))
+    inner = named("inner")
+    if inner is not None:
+        tl = lines[inner]
+        insert_after("array-element-dynamic-size", inner,
+                     [Line("field", 1, start=I(200), size=I(6), tname="Inner", targs=tl.f["targs"], dims=[I(2)], name="dyn", owner="Main")])
+    # ---- explicit sizes ----
+    edit("explicit-size-mismatch:struct", named("us"), setf(tbits=24))
+    edit("boundary-ok:explicit-size-equal", named("us"), setf(tbits=32), ok=True)
+    edit("explicit-size-mismatch:flag", named("ab0"), setf(tbits=2))
+    edit("explicit-size-larger-than-field", named("uu"), setf(tbits=16))
+    edit("explicit-size-smaller-than-field", named("ui"), setf(tbits=8))
+    # ---- byte order ----
+    def attr_line(indent, name, value, default=False, backend=None):
+        return Line("attr", indent, name=name, value=value, default=default, backend=backend)
+    if not base.module_default:
+        # a struct without any $default: a 2-byte UInt needs an explicit byte order
+        end = len(lines) - 1
+        insert_after("byte-order-missing", end,
+                     [Line("head", 0, what="struct", name="Zed"), Line("field", 1, start=I(0), size=I(2), tname="UInt", name="zz")], which=1)
+        insert_after("boundary-ok:one-byte-needs-no-byte-order", end,
+                     [Line("head", 0, what="struct", name="Zed"), Line("field", 1, start=I(0), size=I(1), tname="UInt", name="zz")], ok=True, which=1)
+    insert_after("byte-order-on-bits-member", g1, [attr_line(2, "byte_order", '"LittleEndian"')])
+    insert_after("byte-order-on-struct-typed-field", named("us"), [attr_line(2, "byte_order", '"BigEndian"')])
+    insert_after("byte-order-null-on-multibyte", named("ui"), [attr_line(2, "byte_order", '"Null"')])
+    insert_after("boundary-ok:byte-order-null-on-one-byte", named("uu"), [attr_line(2, "byte_order", '"Null"')], ok=True)
+    insert_after("byte-order-invalid-value", named("ui"), [attr_line(2, "byte_order", '"MiddleEndian"')])
+    insert_after("boundary-ok:byte-order-on-bits-typed-field", named("uw"), [attr_line(2, "byte_order", '"BigEndian"')], ok=True)
+    # ---- attribute tables ----
+    mainh = find(lambda l: l.kind == "head" and l.f["name"] == "Unused")[0]
+    enumh = find(lambda l: l.kind == "head" and l.f["name"] == "Bb")[0]
+    uu = named("uu")
+    insert_after("attribute-wrong-scope:maximum_bits-on-struct", mainh, [attr_line(1, "maximum_bits", "8")])
+    insert_after("attribute-wrong-scope:text_output-on-struct", mainh, [attr_line(1, "text_output", '"Skip"')])
+    insert_after("attribute-wrong-scope:is_signed-on-field", uu, [attr_line(2, "is_signed", "true")])
+    insert_after("attribute-wrong-scope:fixed_size-on-field", uu, [attr_line(2, "fixed_size_in_bits", "8")])
+    insert_after("attribute-wrong-scope:byte_order-on-enum", enumh, [attr_line(1, "byte_order", '"BigEndian"')])
+    insert_after("attribute-duplicate", mbl, [attr_line(1, "maximum_bits", str(mb))])
+    insert_after("attribute-duplicate", uu, [attr_line(2, "text_output", '"Skip"'), attr_line(2, "text_output", '"Emit"')], which=1)
+    edit("attribute-wrong-value-type:maximum_bits-boolean", mbl, setf(value=L("bool", "true")))
+    edit("attribute-wrong-value-type:maximum_bits-string", mbl, setf(value='"8"'))
+    sgl = find(lambda l: l.kind == "attr" and l.f["name"] == "is_signed")[0]
+    edit("attribute-wrong-value-type:is_signed-integer", sgl, setf(value=I(1)))
+    edit("attribute-wrong-value-type:is_signed-string", sgl, setf(value='"true"'))
+    insert_after("attribute-wrong-value-type:byte_order-integer", named("ui"), [attr_line(2, "byte_order", "3")])
+    insert_after("attribute-wrong-value-type:text_output-unknown-string", uu, [attr_line(2, "text_output", '"Maybe"')])
+    insert_after("attribute-wrong-value-type:requires-string", uu, [attr_line(2, "requires", '"this"')])
+    insert_after("attribute-not-defaultable", mainh, [attr_line(1, "text_output", '"Skip"', default=True)])
+    insert_after("attribute-not-defaultable", enumh, [attr_line(1, "maximum_bits", "8", default=True)])
+    insert_after("attribute-unknown", uu, [attr_line(2, "frobnicate", "1")])
+    insert_after("attribute-unknown", mainh, [attr_line(1, "alignment", "4")])
+    fixedh = find(lambda l: l.kind == "head" and l.f["name"] == "Fixed")[0]
+    insert_after("fixed-size-attribute-mismatch", fixedh, [attr_line(1, "fixed_size_in_bits", "24")])
+    insert_after("boundary-ok:fixed-size-attribute-equal", fixedh, [attr_line(1, "fixed_size_in_bits", "32")], ok=True)
+    innerh = find(lambda l: l.kind == "head" and l.f["name"] == "Inner")[0]
+    insert_after("fixed-size-attribute-on-dynamic-struct", innerh, [attr_line(1, "fixed_size_in_bits", "16")])
+    insert_after("attribute-nonconstant-integer", mainh, [attr_line(1, "fixed_size_in_bits", L("int", "uu"))])
+    insert_after("boundary-ok:text-output-on-field", uu, [attr_line(2, "text_output", '"Skip"')], ok=True)
+    # ---- reserved words ----
+    edit("reserved-word:field-name", uu, setf(name=rng.choice(RESERVED_FIELD)))
+    aq = find(lambda l: l.kind == "enum_value" and l.f.get("spare"))[0]
+    edit("reserved-word:enum-value-name", aq, setf(name=rng.choice(RESERVED_ENUM_VALUE)))
+    # rename the unused struct (nobody refers to it)
+    edit("reserved-word:type-name", mainh, setf(name=rng.choice(RESERVED_TYPE)))
+    # ---- parameters ----
+    mh = find(lambda l: l.kind == "head" and l.f["name"] == "Main")[0]
+    def add_param(ty):
+        def fn(l, _):
+            l.f["params"] = list(l.f["params"]) + [("zq", ty)]
+        return fn
+    edit("parameter-width-0", mh, add_param("UInt:0"))
+    edit("parameter-width-65", mh, add_param("UInt:65"))
+    edit("boundary-ok:parameter-width-64", mh, add_param("UInt:64"), ok=True)
+    edit("parameter-integer-without-size", mh, add_param("UInt"))
+    edit("parameter-enum-with-size", mh, add_param("Aa:8"))
+    return out
+
+
+C14_KNOWN = {
+    "width-0:uint-in-struct": "bounds-assert:zero-width-leaf",
 }
